@@ -48,8 +48,16 @@ func runProgram(src string) (res runResult) {
 
 // runFiles builds and runs the program made of files (main.go, and go.mod + one directory per imported package).
 func runFiles(files scriggo.Files) (res runResult) {
+	return runFilesLim(files, 20*time.Second, 0)
+}
+
+// runFilesLim is runFiles with a time limit and (maxLines > 0) a limit on the number of printed lines: a program that
+// prints more is stopped and its outcome is "runaway" (a loop that never ends would otherwise fill the memory of the driver
+// before the time limit).
+func runFilesLim(files scriggo.Files, limit time.Duration, maxLines int) (res runResult) {
 	var cur []any
 	var mu sync.Mutex
+	runaway := false
 	defer func() {
 		if r := recover(); r != nil {
 			res.Outcome, res.Msg = "hostpanic", fmt.Sprint(r)
@@ -65,15 +73,22 @@ func runFiles(files scriggo.Files) (res runResult) {
 		}
 		return runResult{Outcome: "error", Msg: fmt.Sprintf("%T: %v", err, err)}
 	}
-	ctx, cancel := context.WithTimeout(context.Background(), 20*time.Second)
+	ctx, cancel := context.WithTimeout(context.Background(), limit)
 	defer cancel()
 	err = p.Run(&scriggo.RunOptions{Context: ctx, Print: func(v any) {
 		mu.Lock()
 		defer mu.Unlock()
+		if runaway {
+			return
+		}
 		if s, ok := v.(string); ok {
 			if s == "\n" {
 				res.Lines = append(res.Lines, cur)
 				cur = nil
+				if maxLines > 0 && len(res.Lines) >= maxLines {
+					runaway = true
+					cancel()
+				}
 				return
 			}
 			if s == " " {
@@ -82,15 +97,23 @@ func runFiles(files scriggo.Files) (res runResult) {
 		}
 		cur = append(cur, v)
 	}})
+	mu.Lock()
+	over := runaway
+	mu.Unlock()
 	switch e := err.(type) {
 	case nil:
 		res.Outcome = "ok"
+		if over {
+			res.Outcome = "runaway"
+		}
 	case *scriggo.PanicError:
 		res.Outcome, res.Msg = "panic", e.String()
 	case *scriggo.ExitError:
 		res.Outcome, res.Msg = "exit", e.Error()
 	default:
-		if err == context.DeadlineExceeded {
+		if over {
+			res.Outcome = "runaway"
+		} else if err == context.DeadlineExceeded {
 			res.Outcome = "timeout"
 		} else {
 			res.Outcome, res.Msg = "error", fmt.Sprintf("%T: %v", err, err)
@@ -743,7 +766,7 @@ func (g *mgR) block(b []node, ind string) string {
 				init = fmt.Sprintf("v%d := %s", v, g.expr(asNode(s["init"])))
 			}
 			fmt.Fprintf(&o, "%sfor %s; %s; %s {\n%s%s}\n", ind, init, g.expr(asNode(s["cond"])), g.simple(asNode(s["post"])), g.block(nodesOf(s["body"]), ind+"\t"), ind)
-		case "ranges":
+		case "ranges", "rangesl":
 			if l := asStr(s["label"]); l != "" {
 				fmt.Fprintf(&o, "%s:\n", l)
 			}
@@ -780,6 +803,8 @@ func (g *mgR) block(b []node, ind string) string {
 				}
 			}
 			fmt.Fprintf(&o, "%s}\n", ind)
+		case "select":
+			fmt.Fprintf(&o, "%sselect {\n%sdefault:\n%s%s}\n", ind, ind, g.block(nodesOf(s["body"]), ind+"\t"), ind)
 		case "break", "continue", "goto":
 			fmt.Fprintf(&o, "%s%s%s\n", ind, asStr(s["s"]), lbl(s, "label"))
 		case "del":
@@ -807,7 +832,12 @@ type mgCase struct {
 	Prog  map[string]any `json:"prog"`
 	Exp   map[string]any `json:"exp"`
 	Alt   map[string]any `json:"alt"` // carried through untouched, like exp
+	Nest  map[string]any `json:"nest"` // carried through untouched (what the judge's signature names, MiniGoNest.tla)
+	Tmo   int            `json:"tmo"`  // time limit of the run in milliseconds (0: 20 s)
 }
+
+// the most lines a program of the mini language may print (the longest expected output has a few hundred)
+const mgMaxLines = 20000
 
 func mgSource(c mgCase, form string) string {
 	g := &mgR{literal: form == "literal"}
@@ -841,7 +871,14 @@ func mgRun(c mgCase) []any {
 
 func mgRunForm(c mgCase, form string) any {
 	src := mgSource(c, form)
-	res := runProgram(src)
+	limit := 20 * time.Second
+	if c.Tmo > 0 {
+		limit = time.Duration(c.Tmo) * time.Millisecond
+	}
+	res := runFilesLim(scriggo.Files{"main.go": []byte(src)}, limit, mgMaxLines)
+	if (res.Outcome == "runaway" || res.Outcome == "timeout") && len(res.Lines) > 400 { // (the log keeps the beginning)
+		res.Lines = res.Lines[:400]
+	}
 	lines := [][]any{}
 	for _, l := range res.Lines {
 		toks := []any{}
@@ -875,6 +912,12 @@ func mgRunForm(c mgCase, form string) any {
 	}
 	if c.Alt != nil {
 		o["alt"] = c.Alt
+	}
+	if c.Nest != nil {
+		o["nest"] = c.Nest
+	}
+	if c.Tmo > 0 {
+		o["tmo"] = c.Tmo
 	}
 	if *flagKeepSrc {
 		o["src"] = src
